@@ -185,6 +185,21 @@ CHECKS["C16"] = dict(
          "lint's identity (kind, message, flagged text, tokens within two characters) count as that lint.",
     ref="4 C16", technique="TLA+ model checking (TLC) + spec-to-code replay + stateful trace validation")
 
+CHECKS["C07"] = dict(
+    text="The add-word command is specified as the step sequence Load / Append / Create(truncate) / WriteFlush / Done "
+         "over a dictionary file, with Crash enabled between any two steps and case-folded word ids "
+         "(spec/DictFile.tla); TLC checks that the file always reloads to the words added so far (a crash may lose at "
+         "most the word in flight), with the two deviations the code is known to have named explicitly so that any "
+         "other route to a loss is still reported. On the real harper-ls Backend (in process, real directory, two open "
+         "documents) every await point of a save is turned into a crash by dropping the command's future after k polls, "
+         "and random histories of user/file adds, restarts and crashes are run; after every step the files are read "
+         "back and both documents re-published; the stateful trace spec (spec/trace/Trace_DictFile.tla) checks reload = "
+         "added, added words no longer reported, file-dictionary words confined to their file, other lints unchanged.",
+    note="Trusted: TLC; crash = dropping the future after the started file-system operation completed (no torn "
+         "kernel writes). The JS import_words clause is checked in C16's sessions.",
+    category="fault_enumeration" if False else "model_checking",
+    ref="4 C07", technique="TLA+ model checking (TLC) + crash-point enumeration on the real server + stateful trace validation")
+
 NOT_YET = {}
 
 
